@@ -293,14 +293,12 @@ def check_case(rc, want_text=False):
                  predicted_minus_observed=_fmt_cov(pred - cov1), observed_minus_predicted=_fmt_cov(cov1 - pred))
         if has_scalar:
             fail(K_SCALAR, **d)
+        # (2) range: a tile the sequential loop never touches is the more specific diagnosis
+        out_of_range = sorted(m1.touched() - m0.touched())
+        if out_of_range or m1.oob:
+            fail("range:tile touched that the sequential loop does not touch", tiles=out_of_range[:6], oob=m1.oob[:4], **d)
         kind = "missing and extra" if missing and extra else "missing" if missing else "extra"
         fail(f"coverage:{kind} (stage op, operand tiles) executions", **d)
-
-    # (2) range
-    t0, t1 = m0.touched(), m1.touched()
-    out_of_range = sorted(t1 - t0)
-    if out_of_range or m1.oob:
-        fail("range:tile touched that the sequential loop does not touch", tiles=out_of_range[:6], oob=m1.oob[:4])
 
     # (3) race freedom
     conf = m1.conflicts()
